@@ -78,7 +78,7 @@ Gen ==
                         addrs |-> { [x |-> bias + a, want |-> a, unique |-> Cardinality(Owners(l, FileOff(s, a))) = 1] : a \in Addrs(s, lo, hi) }]
   /\ pc' = "emit"
 \* symbol tables: <= 4 symbols over a small address range, duplicates and zero sizes, code and data
-SymAddrs == {16, 32, 48}
+SymAddrs == {16, 24, 32, 48}      \* 24 lies inside a 16-byte symbol at 16: nested entry points
 Syms == { [a |-> a, size |-> sz, data |-> dt] : a \in SymAddrs, sz \in {0, 8, 16}, dt \in BOOLEAN }
 Tables == { <<x>> : x \in Syms } \cup { <<x, y>> : x, y \in Syms } \cup (IF Tier = "thorough" THEN { <<x, y, z>> : x, y, z \in {s \in Syms : s.size # 16} } ELSE {})
 Sorted(t) == \A i \in 1..(Len(t) - 1) : t[i].a <= t[i + 1].a
